@@ -1,5 +1,5 @@
 """Correspondence for the source-to-Lean translator (gen/py2lean.py) and its run-time library (lean/Asn1/PyLite.lean):
-the *translation* of a function (driver ops KTAG, KLEN, KTOBYTES, KOIDENC, KOIDDEC, KTIME, KREAL, KREALDEC, KDECLEN, KDECTAG, KOCTCHUNK, KSETOF, KCERBOOLENC, KBERBOOLENC, KINTENC, KWREAD, KWMARK, KREADTURN, KEOSTURN, PYBIO, KCRANGE, KCSIZE, KCSINGLE, KCALPHA, KCERBOOL, KWRAP, KINTDEC, KBITSDEC, KBITSFROM; PYFROMBYTES) and the function itself in /repo are
+the *translation* of a function (driver ops KTAG, KLEN, KTOBYTES, KOIDENC, KOIDDEC, KTIME, KREAL, KREALDEC, KDECLEN, KDECTAG, KOCTCHUNK, KSETOF, KCERBOOLENC, KBERBOOLENC, KINTENC, KWREAD, KWMARK, KREADTURN, KEOSTURN, PYBIO, KCRANGE, KCSIZE, KCSINGLE, KCALPHA, KCERBOOL, KWRAP, KINTDEC, KBITSDEC, KBITSFROM, KNULLDEC; PYFROMBYTES) and the function itself in /repo are
 run on the same arguments; the Python builtins PyLite transcribes (PYOP) are compared with CPython.
 
 A disagreement means the translator or PyLite misrepresents the code (machinery fault to repair) - it is reported as a
@@ -47,7 +47,7 @@ def _py(f, *a, **kw):
     return ('ok', r)
 
 
-def check(rep, drv, seed, n=400, which=('encodeTag', 'encodeLength', 'toBytes', 'oidEncode', 'oidDecode', 'timeCanon', 'realBin', 'realDec', 'decodeLength', 'cerBool', 'wrapTags', 'intDecode', 'decodeTag', 'octetChunks', 'constraintLeaves', 'setOfSort', 'streamWrapper', 'readTurn', 'bitsDecode')):
+def check(rep, drv, seed, n=400, which=('encodeTag', 'encodeLength', 'toBytes', 'oidEncode', 'oidDecode', 'timeCanon', 'realBin', 'realDec', 'decodeLength', 'cerBool', 'wrapTags', 'intDecode', 'decodeTag', 'octetChunks', 'constraintLeaves', 'setOfSort', 'streamWrapper', 'readTurn', 'bitsDecode', 'nullDecode')):
     """returns number of cases compared"""
     from pyasn1.codec.ber import encoder as benc, decoder as bdec
     from pyasn1.compat import integer
@@ -764,6 +764,27 @@ def check(rep, drv, seed, n=400, which=('encodeTag', 'encodeLength', 'toBytes', 
                 v = univ.BitString.fromOctetString(octs, internalFormat=True, padding=pad)
                 return [int(v), len(v)]
             cmp_('bitsFromOctets', 'KBITSFROM %d %s' % (pad, ' '.join(str(b) for b in octs)), _py(real_f))
+    if 'nullDecode' in which:
+        import io as _io5
+
+        class CapN(Exception):
+            pass
+        ndec_ = bdec.NullPayloadDecoder()
+
+        def capture_n(asn1Spec, tagSet, value, **options):
+            return 'component'
+        ndec_._createComponent = capture_n
+        cons_ts = ptag.TagSet((), ptag.Tag(ptag.tagClassUniversal, ptag.tagFormatConstructed, 5))
+        for i in range(min(n, 60)):
+            body = bytes(rng.choice([0, 0xff, rng.randrange(256)]) for _ in range(rng.choice([0, 0, 0, 1, 1, 2, 5, 40])))
+            ns = rng.random() < 0.2
+
+            def real_n():
+                s_ = _io5.BytesIO(body)
+                for x in ndec_.valueDecoder(s_, None, tagSet=cons_ts if ns else univ.Null.tagSet, length=len(body)):
+                    pass
+                return [s_.tell()]
+            cmp_('nullDecode', 'KNULLDEC %d %s' % (ns, ' '.join(str(b) for b in body)), _py(real_n))
     rep.count('kernel_correspondence', done)
     return done + nonlocal_done[0]
 
